@@ -24,6 +24,7 @@ vars == <<prog, simp, q, mach, out, phase>>
 EngineBodies == {p \in AllPS(EFamily, EMaxW) : BodyOKF(EFamily, p)}
 \* programs whose meaning involves a hard error or an unbounded closure are left out
 Programs == {q0 \in {Cat(StreamSrc(Max(1, Eff(p).need)), Cat(Prefix(EFamily), p)) : p \in EngineBodies}
+                    \cup {Cat(TwinSrc(Max(1, Eff(p).need)), Cat(Prefix(EFamily), p)) : p \in EngineBodies}
                     \cup {Cat(SingleSrc(Max(1, Eff(p).need)), Cat(Prefix(EFamily), p)) : p \in EngineBodies} :
                 ~Run(q0).hard}
 
@@ -60,14 +61,17 @@ Bag(s) == [x \in Range(s) |-> Cardinality({i \in 1..Len(s) : s[i] = x})]
 SubBag(a, b) == \A x \in DOMAIN a : x \in DOMAIN b /\ a[x] <= b[x]
 
 Meaning == Run(prog)
+\* results as compared: closures by position only; where the order of a format string's results is not
+\* documented their `pos' is not either, and positions are left out
+Cmp(o) == IF PosFixed(prog) THEN NormOut(o) ELSE [i \in 1..Len(o) |-> StripStk(NormStk(o[i]))]
 
 \* Hard errors (popping an empty stack) are outside the compared behaviour.
 Comparable == ~Meaning.hard /\ ~mach.hard
 
 \* C01/C03/C10: what has been pulled is part of the meaning ...
-OutWithinDen == Comparable => SubBag(Bag(NormOut(out)), Bag(NormOut(Meaning.out)))
+OutWithinDen == Comparable => SubBag(Bag(Cmp(out)), Bag(Cmp(Meaning.out)))
 \* ... and when the engine reports exhaustion, it is all of it
-DoneMeansAll == (Comparable /\ phase = "done") => Bag(NormOut(out)) = Bag(NormOut(Meaning.out))
+DoneMeansAll == (Comparable /\ phase = "done") => Bag(Cmp(out)) = Bag(Cmp(Meaning.out))
 \* diagnostics are within the documented bounds once everything is pulled
 DiagWithin == (Comparable /\ phase = "done") => (Meaning.lo <= mach.err /\ mach.err <= Meaning.hi)
 \* C01: documented order
@@ -78,6 +82,11 @@ OrderWhereFixed ==
 Compiles == ~q.err
 \* C15: tree::simplify reaches a fixed point free of the patterns it removes
 Simplified == Simple(Simplify(TreeOf(prog))) /\ Simplify(Simplify(TreeOf(prog))) = Simplify(TreeOf(prog))
+\* C01: two identical stacks handed one at a time to the outermost construct are answered with the same
+\* sequence twice -- nothing is re-ordered because of a stack seen earlier
+IsTwin == \E d \in 1..3 : prog.a = TwinSrc(d)
+Periodic == (Comparable /\ phase = "done" /\ IsTwin /\ OneAtATime(prog.b.b) /\ Len(out) % 2 = 0)
+               => SubSeq(out, 1, Len(out) \div 2) = SubSeq(out, Len(out) \div 2 + 1, Len(out))
 \* C13: state lifecycle
 Lifecycle == ~mach.bad
 AllDeadAfterDestroy ==
